@@ -10,20 +10,25 @@ import (
 	"sort"
 	"testing"
 
+	"github.com/tucats/ego/internal/caches"
 	"github.com/tucats/ego/internal/cli/settings"
 	"github.com/tucats/ego/internal/defs"
 	"github.com/tucats/ego/internal/dsns"
 	"github.com/tucats/ego/internal/verifh"
 )
 
-// start a new history: empty DSN service, empty table_perms
+// start a new history: empty DSN service (the file service, or for e.db the database service), empty table_perms
 func (e *c43Env) reset() {
-	svc, err := dsns.NewFileService("memory")
-	if err != nil {
-		e.t.Fatalf("file service: %v", err)
-	}
+	if e.db {
+		e.resetDB()
+	} else {
+		svc, err := dsns.NewFileService("memory")
+		if err != nil {
+			e.t.Fatalf("file service: %v", err)
+		}
 
-	dsns.DSNService = svc
+		dsns.DSNService = svc
+	}
 
 	if !initPermissions() {
 		e.t.Fatalf("permission store not available")
@@ -35,7 +40,14 @@ func (e *c43Env) reset() {
 
 	e.o = newC43Oracle()
 	e.hist = nil
-	e.emit("Z", "ok")
+
+	if e.db {
+		e.emit("Zd", "ok")
+		e.stats.Inc("db_histories")
+	} else {
+		e.emit("Z", "ok")
+	}
+
 	e.stats.Inc("histories")
 }
 
@@ -67,6 +79,18 @@ func (e *c43Env) keys(r *rand.Rand) []string {
 
 func (e *c43Env) randomOp(r *rand.Rand) {
 	u, d, t := c43Name(r, c43Users, true), c43Name(r, c43DSNs, true), c43Name(r, c43Tables, true)
+
+	// database service: now and then the DSN cache loses an entry (or everything) between two operations
+	if e.db {
+		switch r.Intn(12) {
+		case 0:
+			e.opEvict(d)
+		case 1:
+			for _, name := range e.sortedDSNs() {
+				e.opEvict(name)
+			}
+		}
+	}
 
 	switch x := r.Intn(100); {
 	case x < 34:
@@ -228,6 +252,17 @@ func (e *c43Env) pickPair(r *rand.Rand) (string, string) {
 	return p.u, p.d
 }
 
+func (e *c43Env) sortedDSNs() []string {
+	names := make([]string, 0, len(e.o.dsnR))
+	for name := range e.o.dsnR {
+		names = append(names, name)
+	}
+
+	sort.Strings(names)
+
+	return names
+}
+
 func cut(s, sep string) (string, string, bool) {
 	for i := 0; i+len(sep) <= len(s); i++ {
 		if s[i:i+len(sep)] == sep {
@@ -277,24 +312,52 @@ func TestVerifC43(t *testing.T) {
 		stats: verifh.NewStats(), dataFile: dataFile, seen: map[string]bool{}}
 	defer func() { e.cases.Close(); e.fails.Close(); e.stats.Save("c43_stats.json") }()
 
+	savedService := dsns.DSNService
+
+	e.openDBService(filepath.Join(dir, "dsns.db"))
+	t.Cleanup(func() {
+		dsns.DSNService = savedService
+
+		e.dsnRaw.Close()
+		e.closeDB()
+		caches.Purge(caches.DSNCache)
+	})
+
+	// the fixed corpus against both DSN services
 	e.corpus()
 
-	r := verifh.Rand(43)
-	histories := verifh.N(100, 1500)
+	e.db = true
+	e.corpus()
 
-	for h := 0; h < histories; h++ {
-		e.reset()
+	// random histories: the file service, then (fewer: each DSN operation is several SQL statements) the
+	// database service with its own stream
+	for _, mode := range []struct {
+		db        bool
+		salt      int64
+		histories int
+	}{{false, 43, verifh.N(100, 1500)}, {true, 4343, verifh.N(35, 500)}} {
+		e.db = mode.db
+		r := verifh.Rand(mode.salt)
 
-		// a few DSNs to start with, mostly restricted
-		for i, n := 0, 2+r.Intn(4); i < n; i++ {
-			e.opWriteDSN(c43Pick(r, c43DSNs), r.Intn(6) != 0)
-		}
+		for h := 0; h < mode.histories; h++ {
+			e.reset()
 
-		for i, n := 0, 8+r.Intn(30); i < n; i++ {
-			e.randomOp(r)
+			// a few DSNs to start with, mostly restricted
+			for i, n := 0, 2+r.Intn(4); i < n; i++ {
+				e.opWriteDSN(c43Pick(r, c43DSNs), r.Intn(6) != 0)
+			}
 
-			for q, nq := 0, 1+r.Intn(3); q < nq; q++ {
-				e.randomQuery(r, true)
+			for i, n := 0, 8+r.Intn(30); i < n; i++ {
+				// a DSN that starts unrestricted and is restricted by its first DSN-level grant
+				if r.Intn(25) == 0 || (i == 0 && r.Intn(3) == 0) {
+					e.restrictByGrant(r)
+				}
+
+				e.randomOp(r)
+
+				for q, nq := 0, 1+r.Intn(3); q < nq; q++ {
+					e.randomQuery(r, true)
+				}
 			}
 		}
 	}
